@@ -700,6 +700,9 @@ def arr_get(I, a, ti):
         return I.unknown('untracked list column')
     if a.elem == 'dt':
         return SDateTime(Sym(INT, z3.Select(a.arr, ti)), Sym(INT, z3.Select(a.arr2, ti)))
+    if a.elem == STR and a.src is not None:
+        # list(s) that has not been written to: element i is the character s[i]
+        return SChar(z3.SubString(a.src.t, ti, 1), a.src, Sym(INT, ti))
     return Sym(a.elem, z3.Select(a.arr, ti))
 
 
@@ -713,6 +716,7 @@ def arr_store(I, a, ti, v):
         a.arr2 = z3.Store(a.arr2, ti, I.term(v.sec))
     else:
         a.arr = z3.Store(a.arr, ti, I.term(v, a.elem))
+        a.src = None
 
 
 def arr_append(I, a, v):
@@ -1002,6 +1006,11 @@ def store_subscript(I, o, k, v):
         return None
     if isinstance(o, Unknown):
         return None
+    if isinstance(o, Obj) and o.cls is not None:
+        m = I.repo.find_method(o.cls, '__setitem__')
+        if m is not None:
+            I.call_func(FuncVal(m, o, m.cls), [k, v], {})
+            return None
     raise Unsupported(f'store subscript on {type(o).__name__}')
 
 
